@@ -394,7 +394,17 @@ func (fr *frame) visit(instr ssa.Instruction) continuation {
 	case *ssa.Extract:
 		fr.env[instr] = fr.get(instr.Tuple).(Tuple)[instr.Index]
 	case *ssa.Slice:
-		fr.env[instr] = x.sliceOp(instr, fr.get(instr.X), fr.get(instr.Low), fr.get(instr.High), fr.get(instr.Max))
+		var lo, hi, mx Value
+		if instr.Low != nil {
+			lo = x.idx64(fr.get(instr.Low), instr.Low.Type())
+		}
+		if instr.High != nil {
+			hi = x.idx64(fr.get(instr.High), instr.High.Type())
+		}
+		if instr.Max != nil {
+			mx = x.idx64(fr.get(instr.Max), instr.Max.Type())
+		}
+		fr.env[instr] = x.sliceOp(instr, fr.get(instr.X), lo, hi, mx)
 	case *ssa.Return:
 		switch len(instr.Results) {
 		case 0:
@@ -450,8 +460,8 @@ func (fr *frame) visit(instr ssa.Instruction) continuation {
 		}
 		*addr = x.zero(mustDeref(instr.Type()))
 	case *ssa.MakeSlice:
-		ln := x.concreteInt(fr.get(instr.Len).(*Term), "make len")
-		cp := x.concreteInt(fr.get(instr.Cap).(*Term), "make cap")
+		ln := x.concreteInt(x.idx64(fr.get(instr.Len), instr.Len.Type()), "make len")
+		cp := x.concreteInt(x.idx64(fr.get(instr.Cap), instr.Cap.Type()), "make cap")
 		if ln < 0 || cp < ln {
 			x.targetPanicStr("runtime error: makeslice: len out of range")
 		}
@@ -475,9 +485,9 @@ func (fr *frame) visit(instr ssa.Instruction) continuation {
 	case *ssa.Field:
 		fr.env[instr] = fr.get(instr.X).(Struct)[instr.Field]
 	case *ssa.IndexAddr:
-		fr.env[instr] = x.indexAddr(fr.get(instr.X), fr.get(instr.Index).(*Term))
+		fr.env[instr] = x.indexAddr(fr.get(instr.X), x.idx64(fr.get(instr.Index), instr.Index.Type()))
 	case *ssa.Index:
-		fr.env[instr] = x.index(fr.get(instr.X), fr.get(instr.Index).(*Term))
+		fr.env[instr] = x.index(fr.get(instr.X), x.idx64(fr.get(instr.Index), instr.Index.Type()))
 	case *ssa.Lookup:
 		fr.env[instr] = x.lookup(instr, fr.get(instr.X), fr.get(instr.Index))
 	case *ssa.MapUpdate:
@@ -527,6 +537,18 @@ func (fr *frame) prepareCall(call *ssa.CallCommon) (fn Value, args []Value) {
 
 func (x *Exec) lookupMethod(t types.Type, meth *types.Func) *ssa.Function {
 	return x.prog.LookupMethod(t, meth.Pkg(), meth.Name())
+}
+
+// idx64 widens an index/length operand to 64 bits according to the signedness of its type.
+func (x *Exec) idx64(v Value, t types.Type) *Term {
+	tm := v.(*Term)
+	if tm.W == 64 {
+		return tm
+	}
+	if isSigned(t) {
+		return x.ts.SExt(tm, 64)
+	}
+	return x.ts.ZExt(tm, 64)
 }
 
 // concreteInt forces a term to a concrete value, forking over its feasible values if symbolic.
@@ -859,7 +881,7 @@ func (x *Exec) lookup(instr *ssa.Lookup, xv Value, k Value) Value {
 		}
 		return v
 	case Str:
-		return x.index(m, k.(*Term))
+		return x.index(m, x.idx64(k, instr.Index.Type()))
 	}
 	x.unsupported(fmt.Sprintf("lookup on %T", xv))
 	return nil
